@@ -63,6 +63,8 @@ func (c *clipperD) ExecutePolyTreeD(clipType ClipType, fillRule FillRule, polytr
 }
 
 func (c *clipperD) ExecuteOC(clipType ClipType, fillRule FillRule, solutionClosed, solutionOpen *PathsD) bool {
+	*solutionClosed = (*solutionClosed)[:0]
+	*solutionOpen = (*solutionOpen)[:0]
 	solClosed64 := make(Paths64, 0)
 	solOpen64 := make(Paths64, 0)
 
@@ -85,6 +87,8 @@ func (c *clipperD) ExecuteOC(clipType ClipType, fillRule FillRule, solutionClose
 }
 
 func (c *clipperD) ExecuteWithScaleFunc(clipType ClipType, fillRule FillRule, solutionClosed, solutionOpen *PathsD, scaleFn func(path Path64, scale float64) PathD) bool {
+	*solutionClosed = (*solutionClosed)[:0]
+	*solutionOpen = (*solutionOpen)[:0]
 	solClosed64 := make(Paths64, 0)
 	solOpen64 := make(Paths64, 0)
 
